@@ -99,11 +99,20 @@ class _Meta:
     __rand__ = __and__
 
 
+class _Box:
+    """`Box[X].Item` evaluates (to int) whatever X is"""
+
+    Item = int
+
+    def __class_getitem__(cls, item):
+        return cls
+
+
 def _real_ns():
     return {
         "__builtins__": {}, "int": int, "str": str, "list": list, "dict": dict, "tuple": tuple, "set": set, "Pattern": re.Pattern,
         "typing": typing, "Literal": typing.Literal, "Annotated": typing.Annotated, "Callable": typing.Callable,
-        "x": types.SimpleNamespace(Seq=collections.abc.Sequence), "a": types.SimpleNamespace(b=_B), "Meta": _Meta, "tag": _Meta(),
+        "x": types.SimpleNamespace(Seq=collections.abc.Sequence), "a": types.SimpleNamespace(b=_B), "Meta": _Meta, "tag": _Meta(), "Box": _Box,
     }
 
 
